@@ -26,7 +26,7 @@ class C43(core.Prop):
     drivers = ["mc_peek", "s4u_interp"]
     ready = False
     max_workers = 6
-    sizes = {"quick": 500, "thorough": 20000}
+    sizes = {"quick": 300, "thorough": 20000}
     technique = ("property-based testing (Hypothesis): round trip of every observable simcall through the application's serializer and "
                  "the checker's deserializer (mc_peek loop-back), compared field by field with the kernel objects the simcall designates; "
                  "plus bounded simgrid-mc runs of the same programs that must end or fail clearly")
@@ -70,6 +70,9 @@ class C43(core.Prop):
         if p.r.wall_exceeded:
             raise core.Inconclusive()
         if not p.done:
+            if "not supported by the model checker" in p.r.err:
+                oc.labels.append("clear-error")        # what the statement allows: a clear error instead of a hang
+                return oc
             oc.bad("app-crash:" + case["kind"], "mc_peek (the application under a schedule) did not finish: " + p.crash_text())
             return oc
         seen = set()
@@ -85,6 +88,10 @@ class C43(core.Prop):
                 rich = self.compare(oc, "step %d, simcall executed by actor %d" % (l["step"], l["aid"]), l, seen) or rich
             if len(oc.violations) > 6:
                 break
+        for l in p.of("final"):
+            for e in l.get("depends_errors", []):
+                oc.bad("depends-throws:%s" % "+".join(sorted({e["a"], e["b"]} & {"TESTANY", "WAITANY"}) or [e["a"], e["b"]]),
+                       "dispatch_depends(%s[alternative %s], %s[alternative %s]) throws %s" % (e["a"], e["a_tc"], e["b"], e["b_tc"], e["what"]))
         for t in sorted(seen):
             oc.labels.append("t-" + t)
         oc.nontrivial = rich
